@@ -224,6 +224,10 @@ def soil_evaporation(
         # Calculate potential soil evaporation (given current canopy cover
         # size)
         EsPot = Soil_Kex * (1 - NewCond_CCadj) * et0
+        # The micro-advection adjusted canopy cover exceeds 1 for dense canopies
+        # (canopy cover > 0.966); potential soil evaporation cannot be negative
+        if EsPot < 0:
+            EsPot = 0
 
         # Adjust potential soil evaporation for effects of withered canopy
         if (tAdj > Crop_Senescence) and (NewCond_CCxAct > 0):
